@@ -20,7 +20,7 @@ LIMITS = {
 def cases(draw, tier):
     lim = LIMITS[tier]
     nl = draw(gen.netlists(min_inputs=0, max_inputs=lim['max_inputs'], max_gates=lim['max_gates'],
-                           max_arity=5, styles=('plain', 'digits', 'mixed', 'keyword')))
+                           max_arity=5, styles=('plain', 'digits', 'mixed', 'keyword'), const_operands=(0, 0, 2, 3)))
     route = draw(gen.routes(nl))
     alt = draw(gen.routes(nl))
     n_all = len(nl['gates'])
